@@ -150,7 +150,42 @@ def pairs(frags=None, seps=None):
             yield a + s + b
 
 
-def random_docs(seed, n, kmin=3, kmax=7, hostile=False, seps=None):
+_CORPUS = None
+
+
+def corpus():
+    """real text: every string literal of the repository's own tests that looks like a citation sentence, and the
+    sample opinion tests/assets/opinion.txt cut into paragraphs and pairs of consecutive paragraphs (read from the
+    tree under test; empty when the tree has no tests directory).  Deterministic."""
+    global _CORPUS
+    if _CORPUS is None:
+        import ast
+        import glob
+        import os
+        root = os.path.join(os.environ.get("EYECITE_REPO", "/repo"), "tests")
+        out = []
+        for f in sorted(glob.glob(os.path.join(root, "test_*.py"))):
+            try:
+                tree = ast.parse(open(f, encoding="utf-8").read())
+            except (OSError, SyntaxError):
+                continue
+            for node in ast.walk(tree):
+                if (isinstance(node, ast.Constant) and isinstance(node.value, str) and 8 <= len(node.value) <= 2000
+                        and " " in node.value and any(c.isdigit() for c in node.value)):
+                    out.append(node.value)
+        try:
+            op = open(os.path.join(root, "assets", "opinion.txt"), encoding="utf-8").read()
+        except OSError:
+            op = ""
+        paras = [p for p in op.split("\n\n") if p.strip()]
+        out += paras
+        out += [a + "\n\n" + b for a, b in zip(paras, paras[1:])][::2]
+        _CORPUS = sorted(dict.fromkeys(out))
+    return list(_CORPUS)
+
+
+def random_docs(seed, n, kmin=3, kmax=7, hostile=False, seps=None, with_corpus=True):
+    """seeded documents glued from fragments; followed (once per call) by the real-text corpus"""
     rnd = random.Random(seed)
     pool = FRAGMENTS + (HOSTILE if hostile else [])
     seps = seps or (SEPARATORS if hostile else SEPARATORS[:7])
@@ -162,6 +197,8 @@ def random_docs(seed, n, kmin=3, kmax=7, hostile=False, seps=None):
             if j < k - 1:
                 parts.append(rnd.choice(seps))
         yield "".join(parts)
+    if with_corpus:
+        yield from corpus()
 
 
 def mutate(text, rnd, n=1):
